@@ -1,6 +1,9 @@
 import GontainerModel.Props.C07
 #print axioms GM.C07.reach_exact
+#print axioms GM.C07.reach_always_answers
 #print axioms GM.C07.cyclic_exact
+#print axioms GM.C07.graph_faithful
+#print axioms GM.C07.cyclic_documented
 #print axioms GM.C07.cycles_accept_iff
 #print axioms GM.C07.reported_cycle_is_cycle
 #print axioms GM.C07.edges_exact
